@@ -18,6 +18,7 @@ import randschema
 FAMILY = "tl2"
 DRIVER_FILES = ["main.go", "ops_tl1.go", "ops_tl2.go"]
 MODEL_MAX_LINE = 300000
+CORPUS_UNITS = ("cases", "goldmaster", "probe_reclist")
 
 
 def write_ir2_file(ins, path):
@@ -374,8 +375,16 @@ def report_infra(ctx, props_file, cres, thm, berr, ref_err, unit_errors, mism, c
         ctx.violation(f"{pid}:tools", "cannot build tl2gen/verifdump from /repo: " + trunc(berr, 600), {"error": berr}, no_input=True)
     if ref_err:
         ctx.violation(f"{pid}:model-build", "reference model does not build: " + trunc(ref_err, 600), {"error": ref_err}, no_input=True)
-    for name, e in unit_errors[:10]:
-        ctx.violation(f"{pid}:unit:{name}", f"schema unit {name}: {trunc(e, 600)}", {"unit": name, "error": e}, no_input=True)
+    left = []
+    for name, e in unit_errors[:20]:
+        if name in CORPUS_UNITS or not str(e).startswith(("go build:", "tl2gen:")):
+            ctx.violation(f"{pid}:unit:{name}", f"schema unit {name}: {trunc(e, 600)}", {"unit": name, "error": e}, no_input=True)
+        else:
+            # an accepted random schema whose generated code does not build is a defect of the
+            # generator that C14 owns (e.g. `t Bool = T;` with --tl2WhiteList): the unit is not usable here
+            left.append({"unit": name, "error": trunc(str(e)[-400:], 400)})
+    if left:
+        ctx.notes["random_units_that_do_not_build_left_to_C14"] = left
     for name, l, m, g in mism[:30]:
         ctx.violation(f"{pid}:corr:{name}:{trunc(l, 60)}", f"{corr} {name}: model and generated code differ on {trunc(l, 140)}: model={trunc(m, 90)} go={trunc(g, 90)}",
                       {"correspondence": corr, "unit": name, "op": l, "model": m, "go": g}, no_input=True)
